@@ -209,7 +209,6 @@ def fmt_list(ma):
 # correspondence: real code vs Lean model
 
 def correspond(run, corr):
-    exe = build_harness(run)
     rng = run.rng
     gs = os.path.join(vf.TRX, "gsm_shared.py")
     run.drift["gsm_shared.py:HoppingParams"] = vf.src_hash_py(gs, ["resolve", "fn2gsm_time"]) + "/" + \
@@ -222,10 +221,27 @@ def correspond(run, corr):
     mult = 10 if drifted else 1
     if drifted:
         corr.notes.append("source drift w.r.t. the recorded hashes: correspondence cases x10")
-    n_py = run.scale(5000, 60000) * mult
-    n_fw = run.scale(6000, 80000) * mult
+    n_py = run.scale(8000, 60000) * mult
+    n_fw = run.scale(10000, 80000) * mult
 
-    # ---- Python
+    samples = []
+    # each side is a tie of its own: a side whose harness cannot run is recorded, the other side still runs
+    for side in (correspond_py, correspond_fw):
+        try:
+            samples += side(run, corr, rng, n_py if side is correspond_py else n_fw)
+        except vf.HarnessError as e:
+            corr.harness_errors.append(str(e)[-1500:])
+    corr.rule = ("Python: HoppingParams(hsn, maio, ma).resolve(fn) and Transceiver.enable_fh/get_rx_freq/get_tx_freq with hsn, maio, "
+                 "|MA| each at lo-1, lo, lo+1, mid, hi-1, hi, hi+1 and far outside (negative, > 63, |MA| 0 and > 64 .. 255), fn on the "
+                 "26/51/1326/84864/hyperframe lattice, random, and beyond the hyperframe up to 2^32; _pnm for |MA| 0..139 and larger; "
+                 "firmware: rfch_get_params via gsm_fn2gsmtime and with raw (also inconsistent) struct gsm_time contents, every "
+                 "dedicated channel type, h in {0,1,2,255}, uint8 wrap of hsn/maio/n, ARFCNs up to 65535 (int16 wrap), "
+                 "rfch_hop_seq_gen(NULL table), pow_nbin_mask 0..255; a case is a distinct request line")
+    corr.samples = samples
+    run.c07_disagreements = list(corr.disagreements)
+
+
+def correspond_py(run, corr, rng, n_py):
     preqs = []
     for i in range(n_py):
         wide = rng.random() < 0.25
@@ -235,7 +251,7 @@ def correspond(run, corr):
         fn = gen_fn(rng, wide)
         ma = gen_py_ma(rng, n)
         if i % 5 == 4:
-            fh = 0 if rng.random() < 0.2 else 1
+            fh = rng.choice([0, 1, 1, 1, 1, 1, 1, 2])
             rx0 = rng.choice(["None", str(rng.randrange(0, 2 * 10 ** 9))])
             tx0 = rng.choice(["None", str(rng.randrange(0, 2 * 10 ** 9))])
             preqs.append("hop.freq %d %d %d %d %s %s %s" % (fh, hsn, maio, fn, fmt_pairs(ma), rx0, tx0))
@@ -247,8 +263,11 @@ def correspond(run, corr):
     corr.compare(preqs, pimpl, pmodel)
     for r, a in zip(preqs, pimpl):
         corr.count(r, r.split()[0] + ":" + ("exc" if "EXC" in a else "ok"))
+    return [{"request": r[:160], "impl": a, "model": b} for r, a, b in list(zip(preqs, pimpl, pmodel))[:3]]
 
-    # ---- firmware
+
+def correspond_fw(run, corr, rng, n_fw):
+    exe = build_harness(run)
     freqs = []
     for i in range(n_fw):
         wide = rng.random() < 0.3
@@ -297,16 +316,7 @@ def correspond(run, corr):
         if m == "bad-op":
             corr.disagreements.append({"request": r, "impl": "(generator)", "model": "bad-op"})
             break
-
-    corr.rule = ("Python: HoppingParams(hsn, maio, ma).resolve(fn) and Transceiver.enable_fh/get_rx_freq/get_tx_freq with hsn, maio, "
-                 "|MA| each at lo-1, lo, lo+1, mid, hi-1, hi, hi+1 and far outside (negative, > 63, |MA| 0 and > 64 .. 255), fn on the "
-                 "26/51/1326/84864/hyperframe lattice, random, and beyond the hyperframe up to 2^32; _pnm for |MA| 0..139 and larger; "
-                 "firmware: rfch_get_params via gsm_fn2gsmtime and with raw (also inconsistent) struct gsm_time contents, every "
-                 "dedicated channel type, h in {0,1,2,255}, uint8 wrap of hsn/maio/n, ARFCNs up to 65535 (int16 wrap), "
-                 "rfch_hop_seq_gen(NULL table), pow_nbin_mask 0..255; a case is a distinct request line")
-    corr.samples = [{"request": r[:160], "impl": a, "model": b} for r, a, b in list(zip(preqs, pimpl, pmodel))[:3]] + \
-                   [{"request": r[:160], "impl": a, "model": m} for (r, m), a in list(zip(defined, fimpl))[:3]]
-    run.c07_disagreements = list(corr.disagreements)
+    return [{"request": r[:160], "impl": a, "model": m} for (r, m), a in list(zip(defined, fimpl))[:3]]
 
 
 # ----------------------------------------------------------------------------
@@ -356,11 +366,12 @@ def oracle_block(run, exe, which, n, blk, hsn, maio, arfcns):
     return None
 
 
-def oracle_random(run, exe, n_objs, per_obj):
-    """stratified random (hsn 0..63 incl. cyclic, maio 0..63, N 1..64, fn lattice): both implementations vs the standard, and vs each other"""
+def oracle_random(run, exe, sides, n_objs, per_obj):
+    """stratified random (hsn 0..63 incl. cyclic, maio 0..63, N 1..64, fn lattice): every available implementation vs the
+    standard (hence also vs each other: the same inputs go to both)"""
     rng = run.rng
     cases = []
-    plines, clines = [], []
+    lines = {"py": [], "fw": []}
     for _ in range(n_objs):
         n = gen_n(rng, False) or 1
         hsn = gen_hsn(rng, False)
@@ -368,28 +379,26 @@ def oracle_random(run, exe, n_objs, per_obj):
         arfcns = rng.sample(range(0, 1024), n)
         fns = [gen_fn(rng) % H for _ in range(per_obj)]
         cases.append((hsn, maio, n, arfcns, fns))
-        plines += ["o.setfh %d %d %s" % (hsn, maio, fmt_pairs(py_ma_of(arfcns))), "o.res " + " ".join(map(str, fns))]
-        clines += ["o.setfh %d %d %s" % (hsn, maio, fmt_list(arfcns))] + ["o.range %d 1" % f for f in fns]
-    pout = vf.run_lines(py_cmd(), plines)
-    cout = vf.run_lines([exe], clines)
-    ci = 0
-    wit = []
-    seen = set()
-    for k, (hsn, maio, n, arfcns, fns) in enumerate(cases):
-        pvals = pout[2 * k + 1].split() if pout[2 * k] == "ok" else [pout[2 * k]] * len(fns)
-        if len(pvals) != len(fns):
-            pvals = [pout[2 * k + 1]] * len(fns)
-        cvals = cout[ci + 1: ci + 1 + len(fns)]
-        ci += 1 + len(fns)
-        for fn, pv, cv in zip(fns, pvals, cvals):
-            want = str(arfcns[spec_mai(hsn, maio, n, fn)])
-            for which, v in (("py", pv), ("fw", cv)):
-                if v != want and which not in seen:
-                    seen.add(which)
-                    wit.append({"kind": which + "-hop", "hsn": hsn, "maio": maio, "n": n, "fn": fn, "ma": arfcns,
-                                "impl": v, "spec_mai": spec_mai(hsn, maio, n, fn), "spec": int(want),
-                                "other_impl": cv if which == "py" else pv})
-    return wit, sum(len(c[4]) for c in cases)
+        lines["py"] += ["o.setfh %d %d %s" % (hsn, maio, fmt_pairs(py_ma_of(arfcns))), "o.res " + " ".join(map(str, fns))]
+        lines["fw"] += ["o.setfh %d %d %s" % (hsn, maio, fmt_list(arfcns)), "o.res " + " ".join(map(str, fns))]
+    wit, errs = [], []
+    for which in sides:
+        try:
+            out = vf.run_lines(py_cmd() if which == "py" else [exe], lines[which])
+        except vf.HarnessError as e:
+            errs.append(str(e)[-800:])
+            continue
+        for k, (hsn, maio, n, arfcns, fns) in enumerate(cases):
+            vals = out[2 * k + 1].split() if out[2 * k] == "ok" else []
+            if len(vals) != len(fns):
+                vals = [out[2 * k] if out[2 * k] != "ok" else out[2 * k + 1]] * len(fns)
+            bad = [(fn, v) for fn, v in zip(fns, vals) if v != str(arfcns[spec_mai(hsn, maio, n, fn)])]
+            if bad:
+                fn, v = bad[0]
+                wit.append({"kind": which + "-hop", "hsn": hsn, "maio": maio, "n": n, "fn": fn, "ma": arfcns, "impl": v,
+                            "spec_mai": spec_mai(hsn, maio, n, fn), "spec": arfcns[spec_mai(hsn, maio, n, fn)]})
+                break
+    return wit, sum(len(c[4]) for c in cases) * len(sides), errs
 
 
 def oracle_freq(run, count):
@@ -438,7 +447,7 @@ def check_disagreements(run, exe):
                 if 0 <= hsn <= 63 and 1 <= n <= 64 and n == len(ma) and 0 <= maio <= 63 and 0 <= fn < H \
                         and all(0 <= a < 65536 for a in ma):
                     want = "ok %d" % ma[spec_mai(hsn, maio, n, fn)]
-                    got = vf.run_lines([exe], [d["request"]])[0]
+                    got = vf.run_lines([exe], [d["request"]])[0] if exe else want
                     if got != want:
                         wit.append({"kind": "fw-hop", "hsn": hsn, "maio": maio, "n": n, "fn": fn, "ma": ma,
                                     "impl": got, "spec_mai": spec_mai(hsn, maio, n, fn), "spec": want})
@@ -459,10 +468,25 @@ def report_once(run, w):
 
 
 def search(run, corr, deep):
-    exe = build_harness(run)
     rng = run.rng
     found = 0
     full = deep or run.thorough
+    errs = []
+    sides = ["py"]
+    exe = None
+    try:
+        exe = build_harness(run)
+        sides.append("fw")
+    except vf.HarnessError as e:
+        errs.append(str(e)[-800:])
+
+    def guarded(f, *a):
+        try:
+            return f(*a)
+        except vf.HarnessError as e:
+            errs.append(str(e)[-800:])
+            return None
+
     # 0. the two specification copies (Lean Spec, this file) agree on a sample — consistency of the oracle itself
     sreq, swant = [], []
     for _ in range(3000):
@@ -482,44 +506,48 @@ def search(run, corr, deep):
     for (hsn, maio, arfcns, fn) in CORPUS:
         n = len(arfcns)
         want = arfcns[spec_mai(hsn, maio, n, fn)]
-        pgot = vf.run_lines(py_cmd(), ["hop.py %d %d %d %s" % (hsn, maio, fn, fmt_pairs(py_ma_of(arfcns)))])[0]
-        cgot = vf.run_lines([exe], ["hop.fwfn %d %d %d %d %s" % (hsn, maio, n, fn, fmt_list(arfcns))])[0]
-        for which, got, w in (("py", pgot, "ok %d %d" % (want, want + 100000)), ("fw", cgot, "ok %d" % want)):
-            if got != w:
+        for which in sides:
+            if which == "py":
+                got = guarded(vf.run_lines, py_cmd(), ["hop.py %d %d %d %s" % (hsn, maio, fn, fmt_pairs(py_ma_of(arfcns)))])
+                w = "ok %d %d" % (want, want + 100000)
+            else:
+                got = guarded(vf.run_lines, [exe], ["hop.fwfn %d %d %d %d %s" % (hsn, maio, n, fn, fmt_list(arfcns))])
+                w = "ok %d" % want
+            if got is not None and got[0] != w:
                 found += report_once(run, {"kind": which + "-hop", "hsn": hsn, "maio": maio, "n": n, "fn": fn, "ma": arfcns,
-                                             "impl": got, "spec_mai": spec_mai(hsn, maio, n, fn), "spec": w})
+                                           "impl": got[0], "spec_mai": spec_mai(hsn, maio, n, fn), "spec": w})
     # 1. disagreeing correspondence inputs
-    for w in check_disagreements(run, exe):
+    for w in guarded(check_disagreements, run, exe) or []:
         found += report_once(run, w)
     # 2. exhaustive reduced domain (x = HSN xor T1R, T2, T3) for each chosen N
     if full:
-        ns_c = list(range(1, 65))
-        ns_py = list(range(1, 65))
+        ns = {"fw": list(range(1, 65)), "py": list(range(1, 65))}
     else:
-        ns_c = sorted(set([1, 2, 3, 5, 6, 7, 12, 24, 33, 48, 63, 64] + rng.sample(range(1, 65), 8)))
-        ns_py = sorted(set([3, 6, 63, 64] + rng.sample(range(1, 65), 6)))
+        ns = {"fw": sorted(set([1, 2, 3, 5, 6, 7, 12, 24, 33, 48, 63, 64] + rng.sample(range(1, 65), 16))),
+              "py": sorted(set([3, 6, 63, 64] + rng.sample(range(1, 65), 10)))}
     combos = 0
-    for which, ns in (("fw", ns_c), ("py", ns_py)):
-        hit = False
-        for n in ns:
+    for which in sides:
+        for n in ns[which]:
             hsn, maio, arfcns = mk_case(rng, n)
-            w = oracle_block(run, exe, which, n, rng.randrange(0, 32), hsn, maio, arfcns)
+            w = guarded(oracle_block, run, exe, which, n, rng.randrange(0, 32), hsn, maio, arfcns)
             combos += BLOCK
-            if w and not hit:
-                hit = True
+            if w:
                 found += report_once(run, w)
-        corr.distribution["oracle: full (HSNxorT1R,T2,T3) grids on the real %s code (values of N)" % which] = len(ns)
-    # 3. stratified random, both implementations against the standard and each other
-    wit, cnt = oracle_random(run, exe, 20000 if full else 1500, 50 if full else 40)
+        corr.distribution["oracle: full (HSNxorT1R,T2,T3) grids on the real %s code (values of N)" % which] = len(ns[which])
+    # 3. stratified random, every implementation against the standard (same inputs to both)
+    wit, cnt, e3 = oracle_random(run, exe, sides, 20000 if full else 1500, 50 if full else 40)
+    errs += e3
     for w in wit:
         found += report_once(run, w)
-    corr.distribution["oracle: stratified random (hsn,maio,N,MA,fn) on both implementations"] = cnt
+    corr.distribution["oracle: stratified random (hsn,maio,N,MA,fn), implementations x inputs"] = cnt
     # 4. per-frame Rx/Tx frequency
-    for w in oracle_freq(run, 4000 if full else 600):
+    for w in guarded(oracle_freq, run, 4000 if full else 600) or []:
         found += report_once(run, w)
-    corr.evaluations += combos * 1 + cnt * 2
+    corr.evaluations += combos + cnt
     corr.exhaustive = bool(full)
     corr.notes.append("oracle = the check's own transcription of TS 45.002 6.2.3 (cross-checked against the Lean Spec on 3000 inputs)")
+    if errs:
+        raise vf.HarnessError("; ".join(sorted(set(errs)))[-1500:])
     return found
 
 
